@@ -1,0 +1,12 @@
+//go:build verif
+// +build verif
+
+package auth
+
+import "github.com/buzzfeed/sso/internal/auth/providers"
+
+// VerifAuthenticators exposes the per-provider authenticators (verification harness only, build tag verif).
+func (a *AuthenticatorMux) VerifAuthenticators() []*Authenticator { return a.authenticators }
+
+// VerifProvider exposes the authenticator's provider chain (verification harness only, build tag verif).
+func (p *Authenticator) VerifProvider() providers.Provider { return p.provider }
